@@ -14,7 +14,7 @@ def _np_key(items):
     out = []
     for it in items:
         if isinstance(it, list) and it and it[0] == "s":
-            out.append(slice(it[1], it[2]))
+            out.append(slice(it[1], it[2], it[3] if len(it) > 3 else None))
         elif isinstance(it, list) and it and it[0] == "l":
             out.append(list(it[1]))
         else:
@@ -25,7 +25,9 @@ def _np_key(items):
 def _keyform(items):
     f = []
     for it in items:
-        if isinstance(it, list) and it[0] == "s":
+        if isinstance(it, list) and it[0] == "s" and len(it) > 3:
+            f.append("sr" if it[3] < 0 else "st")
+        elif isinstance(it, list) and it[0] == "s":
             f.append("s" if it[2] is None and it[1] is None else ("sb" if it[2] is not None else "s0"))
         elif isinstance(it, list):
             f.append("l")
@@ -218,6 +220,13 @@ def _alphabet(shape, rng):
         ops.append(dict(op="get", key=T([inside[0]] + [full] * (N - 1))))
         ops.append(dict(op="get", key=T([["s", 0, 1]] + [full] * (N - 1))))
         ops.append(dict(op="get", key=T([full] * N)))
+        # slices that run backwards or skip (reads and zeroing writes)
+        rev = ["s", None, None, -1]
+        ops.append(dict(op="get", key=T([rev] + [full] * (N - 1))))
+        ops.append(dict(op="get", key=T([inside[0]] + [rev] * (N - 1))))
+        ops.append(dict(op="get", key=T([["s", shape[0] - 1, 0, -1]] + [full] * (N - 1))))
+        ops.append(dict(op="get", key=T([["s", 0, None, 2]] + [full] * (N - 1))))
+        ops.append(dict(op="set", key=T([rev] + list(inside[1:])), val=0))
         ops.append(dict(op="set", key=T([["s", 0, 2]] + [["s", 0, 1]] + list(inside[2:])), val={"arr": [[1.0], [0.0]]}))
         ops.append(dict(op="set", key=T([["s", 0, 2]] + [["s", 0, 1]] + list(inside[2:])), val={"arr": [[0.0], [6.0]], "as": "tensor"}))
         ops.append(dict(op="set", key=T([["l", [0, shape[0] - 1]] if shape[0] > 1 else ["l", [0]]] + list(inside[1:])), val=9.0))
